@@ -147,10 +147,15 @@ func startOf(re *regexp2.Regexp, in []rune) int {
 }
 
 func stackFamily() []Pat {
-	items := []string{`a*?b*?`, `[ab]*[bc]*`, `(a|b)`, `(?:(a)|(b))`, `(a|b)*?`, `a*?`, `(?:a|ab)`}
+	// one item per kind of instruction that keeps a frame on the backtracking stack (every single-character loop
+	// opcode, greedy and lazy; alternation; captures; group loops): TrackCount has to count each of them
+	items := []string{`a*?b*?`, `[ab]*[bc]*`, `(a|b)`, `(?:(a)|(b))`, `(a|b)*?`, `a*?`, `(?:a|ab)`, `[ab]*?[bc]*?`, `[^c]*?[^d]*?`, `[^c]*[^d]*`, `a*b*`}
 	var out []Pat
-	for _, it := range items {
+	for ii, it := range items {
 		for k := 1; k <= 8; k++ {
+			if ii >= 7 && k != 2 && k != 4 && k != 8 {
+				continue // the later items: fewer repeat counts (the quick tier's time goes to the breadth families too)
+			}
 			body := strings.Repeat(it, k)
 			for _, t := range []string{"c", "d"} {
 				out = append(out, Pat{Src: `(?:` + body + t + `)*d`, Fam: "STACK"})
